@@ -515,3 +515,96 @@ Proof.
   - rewrite Hd. destruct IH as [IH|[dec' [x [Hin [Hv Hr]]]]]; [left; assumption|].
     right. exists dec', x. repeat split; auto. right. assumption.
 Qed.
+
+(* ------------------------------------------------------------------ *)
+(* discriminator dispatch with the lazily filled registry *)
+
+Lemma sreg_set_lookup : forall reg t dec t',
+  sreg_lookup (sreg_set reg t dec) t' = if String.eqb t t' then Some dec else sreg_lookup reg t'.
+Proof.
+  intros reg t dec t'. induction reg as [|[t'' d'] r IH]; cbn [sreg_set sreg_lookup].
+  - reflexivity.
+  - destruct (String.eqb t'' t) eqn:E1; cbn [sreg_lookup].
+    + apply String.eqb_eq in E1. subst t''. destruct (String.eqb t t'); reflexivity.
+    + destruct (String.eqb t'' t') eqn:E2.
+      * apply String.eqb_eq in E2. subst t''. rewrite String.eqb_sym, E1. reflexivity.
+      * exact IH.
+Qed.
+
+Lemma refill_lookup : forall vs reg t,
+  sreg_lookup (refill reg vs) t = match owner vs t with Some d => Some d | None => sreg_lookup reg t end.
+Proof.
+  induction vs as [|[[t'|] dec] r IH]; intros reg t; cbn [refill fold_left owner fst snd].
+  - reflexivity.
+  - change (fold_left _ r (sreg_set reg t' dec)) with (refill (sreg_set reg t' dec) r).
+    rewrite IH, sreg_set_lookup. destruct (owner r t); [reflexivity|].
+    destruct (String.eqb t' t); reflexivity.
+  - change (fold_left _ r reg) with (refill reg r). apply IH.
+Qed.
+
+(* invariant: whatever the registry holds is what the walk over the variants would put there *)
+Definition reg_inv (vs: list variant) (reg: registry) : Prop :=
+  forall t dec, sreg_lookup reg t = Some dec -> owner vs t = Some dec.
+
+Lemma reg_inv_nil : forall vs, reg_inv vs [].
+Proof. intros vs t dec H. discriminate H. Qed.
+
+Lemma refill_inv_lookup : forall vs reg t, reg_inv vs reg ->
+  sreg_lookup (refill reg vs) t = owner vs t.
+Proof.
+  intros vs reg t Hinv. rewrite refill_lookup. destruct (owner vs t) eqn:Eo; [reflexivity|].
+  destruct (sreg_lookup reg t) as [d|] eqn:El; [|reflexivity].
+  rewrite (Hinv _ _ El) in Eo. discriminate Eo.
+Qed.
+
+Lemma refill_inv : forall vs reg, reg_inv vs reg -> reg_inv vs (refill reg vs).
+Proof. intros vs reg Hinv t dec H. rewrite refill_inv_lookup in H by assumption. exact H. Qed.
+
+(* one call: the outcome does not depend on the state of the registry, and the invariant is kept *)
+Theorem discr_call_spec : forall field vs reg v, reg_inv vs reg ->
+  fst (discr_call field vs reg v) = discr_spec field vs v /\ reg_inv vs (snd (discr_call field vs reg v)).
+Proof.
+  intros field vs reg v Hinv. unfold discr_call, discr_spec.
+  destruct (py_getitem_str v field) as [tag|e].
+  2:{ destruct e; cbn [fst snd]; auto. }
+  destruct (hashable tag); cbn [negb]; [|cbn [fst snd]; auto].
+  assert (Hmiss: forall r, tag_lookup r tag = None -> reg_call r tag v = Exn XKeyError)
+    by (intros r Hr; unfold reg_call; rewrite Hr; reflexivity).
+  destruct tag; try (rewrite !Hmiss by reflexivity; cbn [fst snd]; split; [reflexivity|apply refill_inv; assumption]).
+  (* tag = VStr s *)
+  assert (Hrc: reg_call reg (VStr s) v = match sreg_lookup reg s with None => Exn XKeyError | Some dec => dec v end) by reflexivity.
+  rewrite Hrc. clear Hrc.
+  assert (Hre: reg_call (refill reg vs) (VStr s) v = match owner vs s with None => Exn XKeyError | Some dec => dec v end).
+  { unfold reg_call. cbn [tag_lookup]. rewrite refill_inv_lookup by assumption. reflexivity. }
+  destruct (sreg_lookup reg s) as [dec|] eqn:El.
+  - pose proof (Hinv _ _ El) as Ho. rewrite Ho in Hre. rewrite Ho.
+    destruct (dec v) as [x|e] eqn:Ed.
+    + cbn [fst snd]. split; [reflexivity|assumption].
+    + destruct e; cbn [fst snd];
+        first [ solve [split; [reflexivity|assumption]]
+              | rewrite Hre; cbn [fst snd]; split; [reflexivity|apply refill_inv; assumption] ].
+  - rewrite Hre. cbn [fst snd]. split; [|apply refill_inv; assumption].
+    destruct (owner vs s) as [dec|]; reflexivity.
+Qed.
+
+(* whole histories, starting from the empty registry *)
+Theorem discr_history_spec : forall field vs inputs reg, reg_inv vs reg ->
+  discr_history field vs reg inputs = map (discr_spec field vs) inputs.
+Proof.
+  intros field vs inputs. induction inputs as [|v r IH]; intros reg Hinv; [reflexivity|].
+  cbn [discr_history map]. destruct (discr_call_spec field vs reg v Hinv) as [H1 H2].
+  destruct (discr_call field vs reg v) as [o reg']. cbn [fst snd] in *. rewrite H1, (IH reg' H2). reflexivity.
+Qed.
+
+(* the chosen variant's own outcome propagates unchanged, on the first call and on every later one *)
+Theorem discr_variant_outcome_propagates : forall field vs reg kvs s dec,
+  reg_inv vs reg ->
+  d_lookup kvs (VStr field) = Some (VStr s) -> owner vs s = Some dec ->
+  dec (VDict kvs) <> Exn XKeyError ->
+  fst (discr_call field vs reg (VDict kvs)) = dec (VDict kvs).
+Proof.
+  intros field vs reg kvs s dec Hinv Hl Ho Hk.
+  rewrite (proj1 (discr_call_spec field vs reg (VDict kvs) Hinv)).
+  unfold discr_spec. cbn [py_getitem_str]. rewrite Hl. cbn [hashable negb]. rewrite Ho.
+  destruct (dec (VDict kvs)) as [x|e]; [reflexivity|]. destruct e; try reflexivity. congruence.
+Qed.
